@@ -607,6 +607,27 @@ func (in *interp) call(fr *frame, ce *ast.CallExpr, discardFlags []bool) (value,
 			in.absCalls = append(in.absCalls, absCall{name: fn.Sel.Name, args: append([]value{recv}, args...), pos: in.ld.posOf(ce)})
 			return &opaqueVal{name: fn.Sel.Name + "(...)"}, nil
 		}
+		// a method of the package under analysis, found by name (this interpreter has no type information: the method must
+		// be the only one of that name in the package); it is inlined with the evaluated receiver
+		var mfi *funcInfo
+		nm := 0
+		for key, fi := range fr.pkg.funcs {
+			if strings.HasSuffix(key, "."+fn.Sel.Name) && fi.decl.Recv != nil {
+				mfi = fi
+				nm++
+			}
+		}
+		if nm == 1 {
+			recv, err := in.eval(fr, fn.X)
+			if err != nil {
+				return nil, err
+			}
+			args, err := in.evalArgs(fr, ce.Args)
+			if err != nil {
+				return nil, err
+			}
+			return in.invoke(nil, mfi, recv, args, ce)
+		}
 		return nil, in.unsupported(ce, "method call "+fn.Sel.Name)
 	}
 	return nil, in.unsupported(ce, fmt.Sprintf("call through %T", ce.Fun))
